@@ -70,6 +70,8 @@ class Executor:
         Largely passing through relevant assignments to the pool they belong to.
         '''
         results: List[ExecutionResult] = []
+        for cmd in list(suspensions) + list(assignments):
+            assert 0 <= cmd.pool_id < self.num_pools, f"invalid pool_id {cmd.pool_id}"
         for id_ in range(self.num_pools):
             pool_suspensions = [s for s in suspensions if s.pool_id == id_]
             pool_assignments = [a for a in assignments if a.pool_id == id_]
